@@ -744,8 +744,82 @@ def decorator_regex(run, model, rule="C07.layout-regex"):
     cont = ["default is None or x < default", "    defaults)", "classes = 1", "    class_name == 'x'", "definitely", "async_mode", "    x > 0", ")", "lambda x: x", "", "  # @comment", "    error=ValueError)", "x @ y", "    @ values", "@ w > 0", "    'def ' in x", "asynchronous = 1"]
     trees = {name: list(sre_parse.parse(p)) for name, p in patterns.items()}
     ends_on_def = False
+
+    # a cheap pre-filter in front of the patterns (``if not line.lstrip().startswith(PREFIXES): continue``) decides, too
+    def const_strs(e):
+        if isinstance(e, ast.Constant) and isinstance(e.value, str):
+            return (e.value,)
+        if isinstance(e, (ast.Tuple, ast.List)):
+            out = ()
+            for x in e.elts:
+                v = const_strs(x)
+                if v is None:
+                    return None
+                out += v
+            return out
+        if isinstance(e, ast.Name):
+            vals = mod.assigns.get(e.id, [])
+            if len(vals) == 1:
+                return const_strs(vals[0])
+        return None
+
+    def startswith_test(e):
+        """(negated, strip kind, prefixes) of ``[not] <x>[.lstrip()|.strip()].startswith(P)``, else None"""
+        neg = False
+        while isinstance(e, ast.UnaryOp) and isinstance(e.op, ast.Not):
+            e, neg = e.operand, not neg
+        if isinstance(e, ast.Call) and isinstance(e.func, ast.Attribute) and e.func.attr == "startswith" and len(e.args) == 1:
+            base = e.func.value
+            strip = None
+            if isinstance(base, ast.Call) and isinstance(base.func, ast.Attribute) and base.func.attr in ("lstrip", "strip") and not base.args:
+                strip = base.func.attr
+            pre = const_strs(e.args[0])
+            if pre is None:
+                raise AnalysisError("_represent.inspect_decorator: a prefix test on the source lines with prefixes that are not literal (%s)" % src_of(e))
+            return neg, strip, pre
+        return None
+
+    parent = {}
+    for g in funcs:
+        for p_ in ast.walk(g.node):
+            for c_ in ast.iter_child_nodes(p_):
+                parent[id(c_)] = p_
+
+    def prefilters(node):
+        """the prefix tests a line has passed when ``node`` (a test expression / statement) is evaluated"""
+        out = []
+        cur = node
+        while id(cur) in parent:
+            par = parent[id(cur)]
+            # (b) nested inside ``if <startswith test>:``
+            if isinstance(par, ast.If) and any(cur is x for x in par.body) and startswith_test(par.test) is not None:
+                neg, strip, pre = startswith_test(par.test)
+                out.append((not neg, strip, pre))
+            # (a) an earlier ``if [not] <startswith test>: continue`` in the same block
+            for field in ("body", "orelse"):
+                blk = getattr(par, field, None)
+                if isinstance(blk, list) and any(cur is x for x in blk):
+                    for st_ in blk:
+                        if st_ is cur:
+                            break
+                        if isinstance(st_, ast.If) and not st_.orelse and len(st_.body) == 1 and isinstance(st_.body[0], ast.Continue) and startswith_test(st_.test) is not None:
+                            neg, strip, pre = startswith_test(st_.test)
+                            out.append((neg, strip, pre))  # the line goes on iff the test is false
+            if isinstance(par, (ast.FunctionDef, ast.AsyncFunctionDef)):
+                break
+            cur = par
+        return out
+
+    def passes(line, filters):
+        for must_start, strip, pre in filters:
+            s_ = line.lstrip() if strip == "lstrip" else (line.strip() if strip == "strip" else line)
+            if s_.startswith(pre) != must_start:
+                return False
+        return True
+
     for node, names in tests:
-        acc = lambda line: any(_regex_match_prefix(trees[nm], line) for nm in names)
+        flt = prefilters(node)
+        acc = lambda line, names=names, flt=flt: passes(line, flt) and any(_regex_match_prefix(trees[nm], line) for nm in names)
         text = " or ".join("%s=%r" % (nm, patterns[nm]) for nm in names)
         missed = [l for l in deco if not acc(l)]
         wrong = [l for l in cont if acc(l)]
